@@ -172,6 +172,7 @@ func init() {
 				pp.Levels = []int{1, 2}
 				pp.HoldP = 0.5
 			}
+			pp.PlainNoise = pp.Restarts == 0 && c.Rng.Intn(3) == 0
 			if c.Case%8 == 3 {
 				pp.Volatile = true
 				c.Count("volatile_session_episodes", 1)
@@ -196,6 +197,9 @@ func init() {
 				checkLivePubrelOrder(ep, a)
 			}
 			reportPubs(c, ep, a, all, "C05", "C17")
+			if pp.PlainNoise {
+				checkResendFirst(c, ep)
+			}
 			resends := ep.W.PointCount("connect.resent")
 			mode := "seq"
 			if conc > 1 {
@@ -229,4 +233,37 @@ func init() {
 			c.Sample(map[string]any{"mode": mode, "goroutines": conc, "publishes": len(all), "connections": len(ep.W.Conns), "hook_points_hit": strings.Join(hooks, " "), "faults_fired": ep.F.Fired})
 		},
 	})
+}
+
+// checkResendFirst: on every connection, whatever goes out before the resend
+// of the pending transfers has ended is CONNECT or part of that resend; no
+// request made meanwhile slips in between.
+func checkResendFirst(c *run.Ctx, ep *Episode) {
+	w := ep.W
+	w.Mu.Lock()
+	defer w.Mu.Unlock()
+	resent := map[int]int64{}
+	for _, e := range w.Trace {
+		if e.Kind == "point" && e.Note == "connect.resent" {
+			resent[e.Conn] = e.Seq
+		}
+	}
+	checked := 0
+	for _, cn := range w.Conns {
+		end, ok := resent[cn.Idx]
+		pk, _, _ := wire.ParseStream(cn.Out, true)
+		for _, p := range pk {
+			if ok && cn.SeqOfOut(p.Offset+1) > end {
+				break
+			}
+			checked++
+			switch {
+			case p.Type == wire.CONNECT, p.Type == wire.PUBREL, p.Type == wire.PUBLISH && p.QoS > 0:
+			default:
+				c.Violate("new-request-before-resend-end", fmt.Sprintf("conn %d: %s goes out before the resend of the pending transfers has ended", cn.Idx, p), nil)
+				return
+			}
+		}
+	}
+	c.Count("packets_checked_against_the_resend_phase", checked)
 }
